@@ -345,6 +345,45 @@ func RangeBuild(elems []any) *expr.Expression {
 //@   ensures[shape]  result2 ==> ElemOK(result0[0]) && ElemsOK(result0)
 //@   ensures[tokens] result2 ==> Dropped(result1, nonTerminals, 4) && NTok(result0, len(result0)) == NTok(elems, len(elems))-4
 
+// ---- the rules read token TYPES only (C07, C09) ------------------------------------------------------
+
+// SameTyp: two stack elements are tokens of the same type.
+func SameTyp(a, b any) bool {
+	ta, oka := a.(lex.Token)
+	tb, okb := b.(lex.Token)
+	return oka && okb && ta.Typ == tb.Typ
+}
+
+// Similar: the same stack up to the text and position of its tokens - position by
+// position the same expression, or two tokens of the same type.  The stack built from
+// `a b` (implicit AND, token text "AND", position 0) and the one built from `a AND b`,
+// `a and b` or `a && b` are Similar.
+func Similar(a, b []any) bool {
+	return len(a) == len(b) && verifspec.Forall(0, len(a), func(i int) bool {
+		return (IsE(a[i]) && a[i] == b[i]) || SameTyp(a[i], b[i])
+	})
+}
+
+// LemmaTokenBlind: on Similar stacks every rule pattern gives the same verdict and every
+// node a rule builds from the stack is the same node: neither the spelling of a keyword
+// or operator nor its position can influence a reduction.  (Reduce's contract ties the
+// code to these patterns and build terms.)
+
+//@ func LemmaTokenBlind
+//@   lemma
+//@   props C07 C09
+//@   requires Similar(a, b)
+//@   ensures[patterns] Fires(0, a) == Fires(0, b) && Fires(1, a) == Fires(1, b) && Fires(2, a) == Fires(2, b) && Fires(3, a) == Fires(3, b) && Fires(4, a) == Fires(4, b) && Fires(5, a) == Fires(5, b)
+//@   ensures[patterns] Fires(6, a) == Fires(6, b) && Fires(7, a) == Fires(7, b) && Fires(8, a) == Fires(8, b) && Fires(9, a) == Fires(9, b) && Fires(10, a) == Fires(10, b) && Fires(11, a) == Fires(11, b)
+//@   ensures[patterns] PatSuffix3(a, lex.TTilde) == PatSuffix3(b, lex.TTilde) && PatSuffix3(a, lex.TCarrot) == PatSuffix3(b, lex.TCarrot) && NoneBefore(12, a) == NoneBefore(12, b)
+//@   ensures[operands] verifspec.Forall(0, len(a), func(i int) bool { return E(a[i]) == E(b[i]) && IsE(a[i]) == IsE(b[i]) && IsTok(a[i]) == IsTok(b[i]) })
+//@   ensures[built-nodes] PatCompare(a) ==> CompareBuild(a) == CompareBuild(b)
+//@   ensures[built-nodes] PatCompareEq(a) ==> CompareEqBuild(a) == CompareEqBuild(b)
+//@   ensures[built-nodes] PatRange(a) ==> RangeBuild(a) == RangeBuild(b)
+//@   ensures[built-nodes] PatEqual(a) ==> EqualBuild(E(a[0]), E(a[2])) == EqualBuild(E(b[0]), E(b[2]))
+
+func LemmaTokenBlind(a, b []any) {}
+
 // ---- Reduce: the first rule of the table whose pattern matches ---------------------------------
 
 // Fires: patterns on which rule i of the table is certain to fire.
